@@ -6,6 +6,7 @@ import transcript
 PROPERTY = "C18"
 THEOREM_FILE = "Props/C18.v"
 INTERFACES = "L5 sessions: statement kinds in 70000-iteration loops, pools driven past 65536 entries; release-profile harness for the long runs"
+WATCHDOG_MS = 30000      # 65000-deep recursions under full machine load
 PROFILES = ["dev"]
 CASE_TIMEOUT = 20.0
 MODEL_CASE_TIMEOUT = 60.0
